@@ -1584,6 +1584,73 @@ fn http_constant_messages(ev: &mut Evidence, sink: &mut Sink) {
 	}
 }
 
+/// (v) What the response type accepts, the client that parses incoming messages with it accepts: a call on the real async
+/// client (scripted transport) is answered with a valid response that carries members the client has no use for - among them
+/// names that mean something in OTHER messages (`method`, `params` with `subscription` / `result` inside) - at seeded
+/// positions; the call completes with the result / error object that was sent.
+async fn client_ignores_unknown_members(seed: u64, n: usize, sink: &mut Sink, ev: &mut Evidence) {
+	use jrv::clientsim::{ClientCfg, WireMsg, client, err_kind, ErrKind};
+	use jsonrpsee_core::client::ClientT;
+	let mut r = Rng::new(seed);
+	let (c, mut srv) = client(ClientCfg { string_ids: r.bool(), build_path: r.below(4) as u8, ..Default::default() });
+	const POOL: [(&str, &str); 9] = [
+		("method", "\"say_hello\""),
+		("params", "{\"subscription\":1,\"result\":null}"),
+		("params", "[1,2]"),
+		("subscription", "7"),
+		("code", "-32000"),
+		("message", "\"not mine\""),
+		("data", "{\"a\":[]}"),
+		("extra", "null"),
+		("Result", "1"),
+	];
+	for i in 0..n {
+		let cl = c.clone();
+		let t = tokio::spawn(async move { cl.request::<Value, _>("call", jsonrpsee_core::rpc_params![i]).await });
+		let Ok(Some((_, WireMsg::Single(q)))) = tokio::time::timeout(Duration::from_secs(5), srv.next_msg()).await else { break };
+		let id = q.id.clone().unwrap_or(Value::Null);
+		let is_err = r.chance(1, 3);
+		let mut members: Vec<String> = vec!["\"jsonrpc\":\"2.0\"".into(), format!("\"id\":{id}")];
+		members.push(if is_err { format!("\"error\":{{\"code\":-32050,\"message\":\"scripted {i}\"}}") } else { format!("\"result\":{{\"n\":{i}}}") });
+		r.shuffle(&mut members);
+		let mut names = Vec::new();
+		// `method` together with an object-shaped `params` (what a subscription notification looks like), or any other pick
+		let picks: Vec<usize> = if r.chance(1, 3) { vec![0, 1] } else { (0..1 + r.usize(3)).map(|_| r.usize(POOL.len())).collect() };
+		for k in picks {
+			if names.contains(&POOL[k].0) {
+				continue;
+			}
+			names.push(POOL[k].0);
+			let at = r.usize(members.len() + 1);
+			members.insert(at, format!("\"{}\":{}", POOL[k].0, POOL[k].1));
+		}
+		let text = format!("{{{}}}", members.join(","));
+		srv.push_text(text.clone());
+		ev.eval();
+		ev.count("client_calls_answered_with_unknown_members", 1);
+		let got = tokio::time::timeout(Duration::from_secs(30), t).await;
+		let ok = match &got {
+			Ok(Ok(Ok(v))) => !is_err && v["n"] == json!(i),
+			Ok(Ok(Err(e))) => is_err && matches!(err_kind(e), ErrKind::Call(-32050, _, _)),
+			_ => false,
+		};
+		if ok {
+			ev.nontrivial(&("client-unknown-members", seed, i));
+		} else {
+			let mut ns = names.clone();
+			ns.sort();
+			sink.push(
+				format!("client-drops-valid-response/unknown-members={}", ns.join("+")),
+				format!("the call was answered {text}; it ended with {:?}", got.map(|r| r.map(|r| r.map_err(|e| format!("{e:?}"))))),
+				|| json!({"family": "client-unknown-members", "seed": seed, "index": i, "response": text}),
+			);
+			if !c.is_connected() {
+				break;
+			}
+		}
+	}
+}
+
 fn boundary_codes() -> Vec<i32> {
 	let mut v = vec![i32::MIN, i32::MIN + 1, i32::MAX, i32::MAX - 1, 0, 1, -1, 65535, -65536, 32767, -32768, -32769, 1 << 24, -(1 << 24)];
 	for (_, c) in NAMED_KINDS {
@@ -1768,6 +1835,17 @@ fn main() {
 	let kinds = check_kinds(&mut sink, &mut ev, &server_error_samples);
 	ev.count("error_kinds_checked", kinds);
 	http_constant_messages(&mut ev, &mut sink);
+	{
+		let n = ctx.tier.pick(60usize, 3_000);
+		let seed = ctx.seed;
+		let parts = run_parallel((0..16u64).collect(), |_, s| {
+			let mut ev = Evidence::new("");
+			let mut sink = Sink::default();
+			block_on_virtual(client_ignores_unknown_members(Rng::fork(seed, 3000 + s).next_u64(), n, &mut sink, &mut ev));
+			(ev, sink)
+		});
+		merge(&mut ev, &mut sink, parts);
+	}
 
 	// (i) round trips
 	let shards = 16u64;
